@@ -87,7 +87,13 @@ impl ResponseOutputFormat {
                 };
 
                 if !errors.is_empty() {
-                    response["error"] = json![{"csv": json![errors]}];
+                    // never replace an error that is already in the response (e.g. a search error)
+                    let key = if response.get("error").is_some() {
+                        "csv_error"
+                    } else {
+                        "error"
+                    };
+                    response[key] = json![{"csv": json![errors]}];
                 }
                 Ok(row)
             }
